@@ -43,13 +43,13 @@ ASSUMPTIONS = [
     "unchanged and the statement does not say whether NaT is 'missing'); otherwise only eager == chunked is required",
     "sampled, not exhaustive; task bodies atomic",
 ]
-PROBES = ["blocks>=4", "blocks>=8", "group_skips_block", "nan_run_crosses_boundary", "block_all_nan_for_group",
+PROBES = ["dtype_kwarg", "narrow_or_unsigned_int", "blocks>=4", "blocks>=8", "group_skips_block", "nan_run_crosses_boundary", "block_all_nan_for_group",
           "all_size1_chunks", "missing_labels", "by_dask", "crash_recomputed_released_key"]
 
 
 def gen(tape: Tape, tier: str) -> dict:
-    case = gen_scan_case(tape, dtypes=("f8", "f8", "f4", "i8", "i4", "b1", "M8[ns]"), max_n=48 if tier == "thorough" else 30,
-                         max_groups=7 if tier == "thorough" else 5)
+    case = gen_scan_case(tape, dtypes=("f8", "f8", "f4", "f4", "i8", "i4", "i2", "u1", "u4", "b1", "M8[ns]"),
+                         max_n=48 if tier == "thorough" else 30, max_groups=7 if tier == "thorough" else 5, dtype_kw_p=0.25)
     return case
 
 
@@ -63,6 +63,10 @@ def run(case, tape: Tape, ctx):
         ref = call_eager(case)[0]
     except REFUSALS as e:
         raise Skip(f"eager-refused:{type(e).__name__}")
+    except Exception as e:  # noqa: BLE001
+        cls, msg, det = classify_exception(e)
+        det["which"] = "eager"
+        raise Violation(cls, "eager scan: " + msg, **det)
     try:
         colls, assemble, out = call_chunked(case)
     except REFUSALS as e:
@@ -85,6 +89,10 @@ def run(case, tape: Tape, ctx):
     d = values_diff(res, ref, what="chunked vs eager")
     if d:
         raise Violation("value", d)
+    if res.dtype != ref.dtype:
+        raise Violation("dtype", f"{func}: chunked result is {res.dtype}, eager result is {ref.dtype} (input {arr.dtype}, dtype={kw.get('dtype')!r})")
+    ctx.probe("dtype_kwarg", "dtype" in kw)
+    ctx.probe("narrow_or_unsigned_int", arr.dtype.kind in "iu" and (arr.dtype.itemsize < 8 or arr.dtype.kind == "u"))
     if res.shape != arr.shape:
         raise Violation("meta", f"scan result shape {res.shape} != input shape {arr.shape}")
     # reference model, row by row
@@ -97,7 +105,7 @@ def run(case, tape: Tape, ctx):
     blk_of = np.searchsorted(edges, np.arange(arr.shape[-1]), side="right") - 1
     if use_model:
         for r in range(rows.shape[0]):
-            want = scan_1d(func, rows[r], by)
+            want = scan_1d(func, rows[r].astype(kw["dtype"]) if "dtype" in kw else rows[r], by)
             got = erows[r]
             d = values_diff(got[~missing], want[~missing], what=f"eager vs sequential per-group {func} (row {r})")
             if d:
